@@ -170,6 +170,9 @@ def translate_expression(expr, env: Env) -> TExp:  # noqa: C901
                 te_false = te_true[0].fill(te_false)  # type: ignore
             elif te_true[0].BIT_SIZE < te_false[0].BIT_SIZE:  # type: ignore
                 te_true = te_false[0].fill(te_true)  # type: ignore
+            else:
+                # same size, different types: the bits do not mean the same
+                raise TypeErrorException(te_false[0], te_true[0])
 
         if te_true[0] == bool:
             return (
